@@ -2,7 +2,7 @@ SPECIFICATION Spec
 CONSTANTS
   N = 3
   WithQueries = FALSE
-  WithMixed = TRUE
+  WithMixed = FALSE
   HeavyLaws = FALSE
   SlimGates = FALSE
   Mutant <- NoMutant
